@@ -164,12 +164,19 @@ def build(chk):
     chk.under_contract(I0.source, FUNCS)
     dims = (2, 3, 4) if chk.tier == 'quick' else (2, 3, 4, 5)
     total_paths = 0
-    cases = [(vt, d, None) for vt in ('center', 'direct', 'regular') for d in dims] + \
-            [(vt, 3, (3, 1)) for vt in ('center', 'direct', 'regular')]
-    for vt, d, hist in cases:
+    cases = [(vt, d, None, 'sym') for vt in ('center', 'direct', 'regular') for d in dims] + \
+            [(vt, 3, (3, 1), 'sym') for vt in ('center', 'direct', 'regular')]
+    if chk.tier == 'quick':
+        # the k-th tree builder of a regular vine has its first non-trivial choices with 5 columns (a hub of degree >= 3 in
+        # the first tree): two trees of a 5-column regular vine in the quick tier, everything for d = 5 in the thorough one
+        cases.append(('regular', 5, None, 2))
+    for vt, d, hist, trunc_ in cases:
         if True:
-            I, res = run_fit(d, vt, refit_from=hist)
-            tag = '%s.d%d%s' % (vt, d, '.refit' if hist else '')
+            I, res = run_fit(d, vt, trunc=trunc_, refit_from=hist)
+            if trunc_ != 'sym':
+                for r_ in res:
+                    r_.pc = list(r_.pc) + [ir.eq(T, trunc_)]
+            tag = '%s.d%d%s%s' % (vt, d, '.refit' if hist else '', '' if trunc_ == 'sym' else '.t%d' % trunc_)
             k = 0
             depth_cases = set()
             for r in res:
@@ -273,7 +280,7 @@ def build(chk):
             if k == 0 and not chk.undecided:
                 chk.engine_error('C16.%s: no returning path' % tag)
             # every truncation case must have been reached (vacuity guard on the symbolic t)
-            if k and not set(range(1, max(2, d))) <= depth_cases and not chk.undecided:
+            if trunc_ == 'sym' and k and not set(range(1, max(2, d))) <= depth_cases and not chk.undecided:
                 chk.engine_error('C16.%s: tree counts reached %r, expected 1..%d' % (tag, sorted(depth_cases), max(1, d - 1)))
     build_helpers(chk)
     crosscheck_builders(chk)
@@ -295,7 +302,7 @@ def build(chk):
 
 def bounded_native(chk):
     dims = (5, 6) if chk.tier == 'quick' else (5, 6, 7)
-    seeds = range(2) if chk.tier == 'quick' else range(6)
+    seeds = range(4) if chk.tier == 'quick' else range(8)
     evals = 0
     for d in dims:
         for vt in ('center', 'direct', 'regular'):
